@@ -91,6 +91,8 @@ where
     T: Hash + Eq + Clone + Ord + Display + Send + Sync,
     A: Clone,
 {
+    #[cfg(feature = "verif-hooks")]
+    crate::verif_hooks::par_item("betweenness", source);
     let mut P: Vec<Vec<usize>> = vec![vec![]; graph.number_of_nodes()];
     let mut D = vec![f64::MAX; graph.number_of_nodes()];
     let mut fringe = VecDeque::<usize>::new();
@@ -134,6 +136,8 @@ where
     T: Hash + Eq + Clone + Ord + Display + Send + Sync,
     A: Clone,
 {
+    #[cfg(feature = "verif-hooks")]
+    crate::verif_hooks::par_item("betweenness", source);
     // println!("source: {:?}", source);
     let mut P: Vec<Vec<usize>> = vec![vec![]; graph.number_of_nodes()];
     let mut D = vec![f64::MAX; graph.number_of_nodes()];
